@@ -12,7 +12,7 @@ check.  Results go to stdout and to /verif/tools/mutants_last.json.
 import json, os, subprocess, sys, tempfile, shutil, time
 
 VERIF = os.path.dirname(os.path.dirname(os.path.abspath(__file__)))
-REPO = "/repo"
+REPO = os.environ.get("GDSTK_REPO", "/repo")
 RUNS_PER_WORKER = int(os.environ.get("MUTANT_RUNS", "2000"))
 WORKERS = 16
 
